@@ -1,0 +1,23 @@
+//go:build verif
+// +build verif
+
+package limiter
+
+import "sync/atomic"
+
+var verifHook atomic.Value // func(point string)
+
+// VerifSetHook installs (or, with nil, removes) a callback invoked at the named
+// yield points of this package. Only present in builds with the verif tag.
+func VerifSetHook(h func(point string)) {
+	if h == nil {
+		h = func(string) {}
+	}
+	verifHook.Store(h)
+}
+
+func verifPoint(point string) {
+	if h, ok := verifHook.Load().(func(string)); ok {
+		h(point)
+	}
+}
